@@ -78,6 +78,22 @@ JudgeSign(e) ==
      \o When(badPos # {}, "hint bit differs from MakeHint(w0 - c s2 + c t0, w1) with w = A y at a checked coefficient")
      \o When(Len(e.sig) # 4595, "signature size")
 
+\* a run of the signing loop given by its exact scalars: every iteration must leave through the exit
+\* the specification's tests select (first failing test in the order z, w0 - c s2, c t0, hints), so
+\* that the library returns the SAME candidate as the specification also when a test is met with equality
+SpecExit(it) ==
+  IF it.maxz >= GAMMA1 - BETA THEN 1
+  ELSE IF it.maxw0 >= GAMMA2 - BETA THEN 2
+  ELSE IF it.maxct0 >= GAMMA2 THEN 3
+  ELSE IF it.hints > OMEGA THEN 4
+  ELSE 0
+JudgeLoop(e) ==
+  LET n == Len(e.iters)
+  IN When(\E x \in 1..n : e.iters[x].nonce # x, "iteration numbering")
+     \o When(\E x \in 1..n : e.iters[x].exit # SpecExit(e.iters[x]),
+             "an iteration left the signing loop through another exit than the specification's tests select for its norms and hint count")
+     \o When(n = 0 \/ e.iters[n].exit # 0 \/ \E x \in 1..(n - 1) : e.iters[x].exit = 0, "the loop did not end with its first accepted candidate")
+
 JudgeRepeat(e) == When(~e.same, "signing the same message again gave different bytes")
 
 JudgeSampler(e) ==
@@ -93,6 +109,7 @@ Judge(e) ==
   CASE e.ev = "keygen" -> JudgeKeygen(e)
     [] e.ev = "sign" -> JudgeSign(e)
     [] e.ev = "repeat" -> JudgeRepeat(e)
+    [] e.ev = "loop" -> JudgeLoop(e)
     [] e.ev = "sampler" -> JudgeSampler(e)
     [] OTHER -> <<"unknown event">>
 DriftOf(e) == <<>>
